@@ -1228,9 +1228,9 @@ theorem pow_two_succ_succ (W n3 : Nat) (hW : 3 ≤ W) :
   exact Nat.mul_le_mul_left _ h64
 
 set_option maxHeartbeats 1000000 in
-/-- every scratch buffer of Toom-3 that is added into `c` holds the value the interpolation formulas
+/-- every scratch buffer of Toom-3 (before the two exact divisions) holds the value the interpolation formulas
     promise; all the asserted-zero carries / borrows / remainders are zero on the way -/
-theorem toomScratch_spec (W : Nat) (hW : 4 ≤ W) (rec : MulKernel) (hrec : SameLenContract W rec)
+theorem toomScratchPre_spec (W : Nat) (hW : 4 ≤ W) (rec : MulKernel) (hrec : SameLenContract W rec)
     (a b : List Nat) (hab : a.length = b.length) (hn : 16 ≤ a.length) (ha : IsWords W a)
     (hb : IsWords W b) (n3 : Nat) (hn3 : n3 = (a.length + 2) / 3)
     (A0 A1 A2 B0 B1 B2 : Nat)
@@ -1238,17 +1238,17 @@ theorem toomScratch_spec (W : Nat) (hW : 4 ≤ W) (rec : MulKernel) (hrec : Same
     (hA2 : A2 = val W (a.drop (2 * n3)))
     (hB0 : B0 = val W (b.take n3)) (hB1 : B1 = val W ((b.drop n3).take n3))
     (hB2 : B2 = val W (b.drop (2 * n3))) :
-    ((toomScratch W rec a b).v0.length = 2 * n3 ∧ IsWords W (toomScratch W rec a b).v0 ∧
-      val W (toomScratch W rec a b).v0 = A0 * B0) ∧
-    ((toomScratch W rec a b).vinf.length = 2 * (a.length - 2 * n3) ∧
-      IsWords W (toomScratch W rec a b).vinf ∧ val W (toomScratch W rec a b).vinf = A2 * B2) ∧
-    ((toomScratch W rec a b).t2a.length = 2 * n3 + 2 ∧ IsWords W (toomScratch W rec a b).t2a ∧
-      val W (toomScratch W rec a b).t2a = (A0 + A1 + A2) * (B0 + B1 + B2)) ∧
-    ((toomScratch W rec a b).t1.length = 2 * n3 + 2 ∧ IsWords W (toomScratch W rec a b).t1 ∧
-      val W (toomScratch W rec a b).t1
-        = A0 * B0 + (A0 * B2 + A1 * B1 + A2 * B0) + (A1 * B2 + A2 * B1) + A2 * B2) ∧
-    ((toomScratch W rec a b).t2.length = 2 * n3 + 2 ∧ IsWords W (toomScratch W rec a b).t2 ∧
-      val W (toomScratch W rec a b).t2 = A0 * B0 + (A0 * B2 + A1 * B1 + A2 * B0) + A2 * B2) := by
+    ((toomScratchPre W rec a b).v0.length = 2 * n3 ∧ IsWords W (toomScratchPre W rec a b).v0 ∧
+      val W (toomScratchPre W rec a b).v0 = A0 * B0) ∧
+    ((toomScratchPre W rec a b).vinf.length = 2 * (a.length - 2 * n3) ∧
+      IsWords W (toomScratchPre W rec a b).vinf ∧ val W (toomScratchPre W rec a b).vinf = A2 * B2) ∧
+    ((toomScratchPre W rec a b).t2a.length = 2 * n3 + 2 ∧ IsWords W (toomScratchPre W rec a b).t2a ∧
+      val W (toomScratchPre W rec a b).t2a = (A0 + A1 + A2) * (B0 + B1 + B2)) ∧
+    ((toomScratchPre W rec a b).t1.length = 2 * n3 + 2 ∧ IsWords W (toomScratchPre W rec a b).t1 ∧
+      val W (toomScratchPre W rec a b).t1
+        = 6 * (A0 * B0 + (A0 * B2 + A1 * B1 + A2 * B0) + (A1 * B2 + A2 * B1) + A2 * B2)) ∧
+    ((toomScratchPre W rec a b).t2.length = 2 * n3 + 2 ∧ IsWords W (toomScratchPre W rec a b).t2 ∧
+      val W (toomScratchPre W rec a b).t2 = 2 * (A0 * B0 + (A0 * B2 + A1 * B1 + A2 * B0) + A2 * B2)) := by
   -- lengths of the six parts
   have g1 : 2 * n3 ≤ a.length := by omega
   have g2 : a.length - 2 * n3 ≤ n3 := by omega
@@ -1295,7 +1295,7 @@ theorem toomScratch_spec (W : Nat) (hW : 4 ≤ W) (rec : MulKernel) (hrec : Same
   have p21 := Nat.mul_lt_mul'' xa2' xb1
   have p22 := Nat.mul_lt_mul'' xa2' xb2'
   generalize hX : 2 ^ (W * n3) * 2 ^ (W * n3) = X at *
-  simp only [toomScratch, ← hn3]
+  simp only [toomScratchPre, ← hn3]
   -- V(0)
   have c0 := hrec (List.replicate (2 * n3) 0) false (a.take n3) (b.take n3) (by rw [la0, lb0])
     (by rw [List.length_replicate, la0, lb0]; omega) (isWords_replicate_zero W _) wa0 wb0
@@ -1498,20 +1498,47 @@ theorem toomScratch_spec (W : Nat) (hW : 4 ≤ W) (rec : MulKernel) (hrec : Same
       simpa using key'
   obtain ⟨t1d, t1de, t1dl, t1dw, t1dv'⟩ := t1dv
   rw [t1de]
-  -- the exact divisions
   have t2bv' : val W t2b = 2 * (A0 * B0 + (A0 * B2 + A1 * B1 + A2 * B0) + A2 * B2) := by
     exact_mod_cast t2bv
-  have d6 : val W t1d / 6 = A0 * B0 + (A0 * B2 + A1 * B1 + A2 * B0) + (A1 * B2 + A2 * B1) + A2 * B2 := by
-    rw [t1dv']; exact Nat.mul_div_cancel_left _ (by decide)
-  have d2 : val W t2b / 2 = A0 * B0 + (A0 * B2 + A1 * B1 + A2 * B0) + A2 * B2 := by
-    rw [t2bv']; exact Nat.mul_div_cancel_left _ (by decide)
-  rw [d6, d2]
+  exact ⟨⟨v0l, v0w, v0v⟩, ⟨vil, viw, viv⟩, ⟨t2al, t2aw, by rw [t2av]; ring⟩, ⟨t1dl, t1dw, t1dv'⟩,
+    ⟨t2bl, t2bw, t2bv'⟩⟩
+
+/-- every scratch buffer of Toom-3 that is added into `c` holds the value the interpolation formulas
+    promise -/
+theorem toomScratch_spec (W : Nat) (hW : 4 ≤ W) (rec : MulKernel) (hrec : SameLenContract W rec)
+    (a b : List Nat) (hab : a.length = b.length) (hn : 16 ≤ a.length) (ha : IsWords W a)
+    (hb : IsWords W b) (n3 : Nat) (hn3 : n3 = (a.length + 2) / 3)
+    (A0 A1 A2 B0 B1 B2 : Nat)
+    (hA0 : A0 = val W (a.take n3)) (hA1 : A1 = val W ((a.drop n3).take n3))
+    (hA2 : A2 = val W (a.drop (2 * n3)))
+    (hB0 : B0 = val W (b.take n3)) (hB1 : B1 = val W ((b.drop n3).take n3))
+    (hB2 : B2 = val W (b.drop (2 * n3))) :
+    ((toomScratch W rec a b).v0.length = 2 * n3 ∧ IsWords W (toomScratch W rec a b).v0 ∧
+      val W (toomScratch W rec a b).v0 = A0 * B0) ∧
+    ((toomScratch W rec a b).vinf.length = 2 * (a.length - 2 * n3) ∧
+      IsWords W (toomScratch W rec a b).vinf ∧ val W (toomScratch W rec a b).vinf = A2 * B2) ∧
+    ((toomScratch W rec a b).t2a.length = 2 * n3 + 2 ∧ IsWords W (toomScratch W rec a b).t2a ∧
+      val W (toomScratch W rec a b).t2a = (A0 + A1 + A2) * (B0 + B1 + B2)) ∧
+    ((toomScratch W rec a b).t1.length = 2 * n3 + 2 ∧ IsWords W (toomScratch W rec a b).t1 ∧
+      val W (toomScratch W rec a b).t1
+        = A0 * B0 + (A0 * B2 + A1 * B1 + A2 * B0) + (A1 * B2 + A2 * B1) + A2 * B2) ∧
+    ((toomScratch W rec a b).t2.length = 2 * n3 + 2 ∧ IsWords W (toomScratch W rec a b).t2 ∧
+      val W (toomScratch W rec a b).t2 = A0 * B0 + (A0 * B2 + A1 * B1 + A2 * B0) + A2 * B2) := by
+  obtain ⟨h0, hi, ha1, ⟨p1l, p1w, p1v⟩, ⟨p2l, p2w, p2v⟩⟩ := toomScratchPre_spec W hW rec hrec a b hab hn ha hb
+    n3 hn3 A0 A1 A2 B0 B1 B2 hA0 hA1 hA2 hB0 hB1 hB2
+  -- bounds: both quotients fit the 2·n3 + 2 words
+  have lt1 := val_lt W _ p1w
+  have lt2 := val_lt W _ p2w
+  rw [p1l, p1v] at lt1
+  rw [p2l, p2v] at lt2
+  simp only [toomScratch, ← hn3]
+  rw [p1v, p2v, Nat.mul_div_cancel_left _ (by decide : 0 < 6), Nat.mul_div_cancel_left _ (by decide : 0 < 2)]
   obtain ⟨f1v, f1l, f1w⟩ := wordsOfLen_spec W (2 * n3 + 2)
     (A0 * B0 + (A0 * B2 + A1 * B1 + A2 * B0) + (A1 * B2 + A2 * B1) + A2 * B2)
   obtain ⟨f2v, f2l, f2w⟩ := wordsOfLen_spec W (2 * n3 + 2)
     (A0 * B0 + (A0 * B2 + A1 * B1 + A2 * B0) + A2 * B2)
   rw [Nat.mod_eq_of_lt (by omega)] at f1v f2v
-  exact ⟨⟨v0l, v0w, v0v⟩, ⟨vil, viw, viv⟩, ⟨t2al, t2aw, by rw [t2av]; ring⟩, ⟨f1l, f1w, f1v⟩, ⟨f2l, f2w, f2v⟩⟩
+  exact ⟨h0, hi, ha1, ⟨f1l, f1w, f1v⟩, ⟨f2l, f2w, f2v⟩⟩
 
 -- ====================================================================== Toom-3: the updates of c, step by step
 -- (generated text: thirteen window updates of `toomApply`, each chained with `upd_step`)
